@@ -60,7 +60,6 @@ def main():
     cnt = {}
     keys = {}
     wc_token = {}       # actual cache key -> stable token (digest of a seed-independent description of the key)
-    tokens_used = {}
     uuid_key = {}       # UUID handed out by create_equivalence_id -> digest of the value key
 
     def token_of(wcc):
@@ -131,11 +130,9 @@ def main():
                 vpart = "V" + uuid_key[vid] if vid in uuid_key else "F%d:%s" % (obs["step"], weight_tens.name)
                 d = [vpart, str(wcc.npu_block_type), int(wcc.ofm_block_depth), [int(x) for x in depth_offsets],
                      [int(x) for x in kernel.dilation]]
-                tok = ("v" if vpart[0] == "V" else "f") + _h(json.dumps(d).encode())[:10]
-                while tokens_used.get(tok, wcc) != wcc:
-                    tok += "+"
-                tokens_used[tok] = wcc
-                wc_token[wcc] = tok
+                # the token is the cache key with the process-specific parts (UUID, hash of a string) replaced by
+                # what they stand for; equal tokens <=> equal keys as long as the id memo is not cleared in between
+                wc_token[wcc] = ("v" if vpart[0] == "V" else "f") + _h(json.dumps(d).encode())[:10]
         except Exception:       # observation must never change what the compiler does
             pass
         return real_encode(arch, op, weight_tens, scale_tens, kernel, block_config, depth_offsets)
